@@ -11,7 +11,7 @@ import types
 
 import z3
 
-from .sym import (Sym, SInt, SBool, SReal, SBuf, SOpaque, Blob, Unsupported, mk_int, mk_bool, mk_real,
+from .sym import (Sym, SInt, SBool, SReal, SBuf, SOpaque, SIPStr, Blob, Unsupported, mk_int, mk_bool, mk_real,
                   int_term, real_term, bool_term, is_intlike, is_reallike, bits_of, buf_of, is_buflike,
                   _mask_upto, _t, _add)
 from . import bufops
@@ -926,3 +926,51 @@ def _deep(I, v, memo):
 @model(_copy_mod.deepcopy)
 def m_deepcopy(I, v, memo=None):
     return _deep(I, v, {})
+
+# ----------------------------------------------------------------------------
+#   socket.inet_aton / inet_ntoa (trusted: mutually inverse on dotted quads)
+# ----------------------------------------------------------------------------
+import socket as _socket
+
+def ip_octets(v):
+    """the four octets a concrete dotted-quad string denotes, or None"""
+    if isinstance(v, str):
+        try:
+            return tuple(_socket.inet_aton(v))
+        except OSError:
+            return None
+    return None
+
+@model(_socket.inet_ntoa)
+def m_inet_ntoa(I, data):
+    if isinstance(data, (bytes, bytearray)):
+        try:
+            return _socket.inet_ntoa(bytes(data))
+        except Exception as e:
+            _raise(I, e)
+    if not isinstance(data, SBuf):
+        _raise(I, TypeError("a bytes-like object is required"))
+    n = data.length()
+    ok = (n == 4) if isinstance(n, int) else I.ctx.decide(n == 4)
+    if not ok:
+        _raise(I, OSError("packed IP wrong length for inet_ntoa"))
+    I.ctx.assumptions.add("socket.inet_aton/inet_ntoa are mutually inverse on four octets / dotted quads (trusted)")
+    octs = [bufops.index(I.ctx, data, j) for j in range(4)]
+    if all(isinstance(o, int) for o in octs):
+        return _socket.inet_ntoa(bytes(octs))
+    return SIPStr(octs)
+
+@model(_socket.inet_aton)
+def m_inet_aton(I, s):
+    if isinstance(s, SIPStr):
+        I.ctx.assumptions.add("socket.inet_aton/inet_ntoa are mutually inverse on four octets / dotted quads (trusted)")
+        chunks = []
+        for o in s.octets:
+            chunks.append(o if isinstance(o, int) else int_term(o))
+        return SBuf(chunks, False)
+    if isinstance(s, Sym):
+        raise Unsupported("inet_aton of symbolic text")
+    try:
+        return _socket.inet_aton(s)
+    except Exception as e:
+        _raise(I, e)
